@@ -433,6 +433,18 @@ def check_dump(t, cls, cname, behaviour, obj, subset, model, second=False):
         if behaviour:
             back.size_field_behavior = behaviour
         again = back.dump()
+        # the other ways of handing the text in: by keyword, as bytes, as lines, as a file object
+        import io as _io
+        for how, mk in (("sequence= keyword", lambda: cls(sequence=text)), ("bytes", lambda: cls(text.encode("utf-8"))),
+                        ("list of lines", lambda: cls(text.splitlines(True))), ("text file object", lambda: cls(_io.StringIO(text))),
+                        ("iter_paragraphs", lambda: next(iter(cls.iter_paragraphs(text, use_apt_pkg=False))))):
+            other = mk()
+            if behaviour:
+                other.size_field_behavior = behaviour
+            if other.dump() != again:
+                t.failed("the parsed paragraph depends on how the text is handed in", cls=cname, present=subset, dump=text, given_as=how,
+                         second=other.dump())
+                return True
     except Exception as e:
         t.failed("re-parse / second dump raised %r" % (e,), cls=cname, present=subset, dump=text)
         return True
